@@ -7,6 +7,12 @@ COMMON_NOTE = ("Trusted: Coq 8.16.1 kernel (vm_compute, no native_compute); no a
                "extraction via ExtrOcamlBasic only + coq/Extract/driver.ml, cross-checked by vm_compute on a sample every run; "
                "harness/translate.py (T1) and the per-property runner harness/cNN.py (T2 canonicalisation). ")
 CLAIMED = {
+ "C06": dict(
+   text="Coq theorems for the flat family of OCCURS DEPENDING ON records (one 01 group; any number and order of fixed elementary items, counters among them, elementary ODO/OCCURS tables and one-level group tables, each counter an earlier child), ALL count vectors, ALL records whose counter bytes hold the vector: the number of elements is the counter's value, every child starts where the COBOL rules put it for THIS record's counts, an index at or beyond the count is IndexError, the record ends at its extent, and trailing bytes of the buffer do not change the layout (frame lemma). Composition with C05's buffer automaton: for EVERY buffer size and EVERY sequence of such records back to back (RECFM N) the row loop delivers record j starting exactly where record j-1 ended, with the layout of its own counts; likewise V and VB. "
+        "Nested ODO shapes are outside the theorem's family and are decided by correspondence against the same specification.",
+   note="Builds on Model/Layout.v (walk, nav) and Model/Recfm.v (buffer automaton) unchanged. Counters are unsigned DISPLAY digit items. Known finding K-odo-lrecl-none (set_schema with lrecl=None raises for ODO layouts although documented); the pre-fix refill is refuted for the stream too.",
+   technique="Coq proof by induction over the children list (closed form of the walk) and over the record sequence (composition with the RECFM_N invariant) + sampled differential correspondence on files in RECFM N/V/VB",
+   design="5/C06"),
  "C01": dict(
    text="Coq theorem over ALL well-formed record descriptions (any nesting of groups, OCCURS n on groups and elementary items, REDEFINES of elementary or group items at any position among the children of a non-repeated group, any widths), ALL records over any element type, ALL navigation paths: the location reached by name/index navigation through the schema build_json_schema emits and LocationMaker.walk lays out starts exactly where the COBOL rules put the item, has exactly its length, raw() is that slice of the record, the record length is the end of the last item, and an index at or beyond the count is refused. "
         "Proved by mutual induction over the tree with an anchors-extension invariant; includes the flattening lemma for the REDEFINES side effect on the parent's ordered properties. Correspondence compares the EMITTED SCHEMA itself and every path of random trees (EBCDIC and text) with the model and the spec.",
